@@ -1,5 +1,5 @@
 import UtilModel.Lemmas.Roman
-import UtilModel.Lemmas.CodeTies
+import UtilModel.Lemmas.CodeTiesRoman
 /-!
 # C10 — Roman parser recognises exactly the documented numerals with the right value
 
